@@ -50,6 +50,7 @@ func main() {
 	restarts := fs.Bool("restarts", false, "app stream: restart the node at random block boundaries")
 	checktx := fs.Bool("checktx", false, "app stream: interleave CheckTx calls")
 	queries := fs.Bool("queries", false, "app stream: interleave Query calls")
+	evm := fs.Bool("evm", false, "app stream: include contract transactions")
 	replicas := fs.Bool("replicas", false, "app stream: run replica comparisons (C01/C06/C07)")
 	known := fs.String("known", "/verif/known_findings.jsonl", "known findings file (read-only)")
 	_ = fs.Parse(os.Args[2:])
@@ -72,7 +73,7 @@ func main() {
 	case "ledger":
 		res = ledgerstream.Run(*seed, *tier, wd, *driver, rp)
 	case "app":
-		res = appstream.Run(*seed, *tier, wd, *driver, rp, appstream.Config{Prop: *prop, Restarts: *restarts, CheckTx: *checktx, Queries: *queries, Known: *known, Replicas: *replicas})
+		res = appstream.Run(*seed, *tier, wd, *driver, rp, appstream.Config{Prop: *prop, Restarts: *restarts, CheckTx: *checktx, Queries: *queries, Known: *known, Replicas: *replicas, EVM: *evm})
 	case "signer":
 		res = signerstream.Run(*seed, *tier, wd, *driver, rp)
 	case "rlp":
